@@ -2,7 +2,7 @@
    simulation from the implementation's own pre-state) and the property's monitors on the
    implementation's own answers. *)
 From Coq Require Import Qabs Uint63.
-From ZenoV Require Import Lib.Harness Rate.Bucket Rate.BucketProofs Rate.Manager.
+From ZenoV Require Import Lib.Harness Rate.Bucket Rate.BucketProofs Rate.Manager Rate.Cancel.
 Open Scope string_scope.
 Open Scope list_scope.
 Open Scope Z_scope.
@@ -207,7 +207,8 @@ Inductive mev :=
 | EBurst (host : string) (ivs : list (Z * Z)) (after : snap)     (* concurrent Waits on a present host *)
 | EMix (host : string) (ivs : list (Z * Z)) (extra : Z) (after : snap)
 | EConc (host : string) (ivsA : list (Z * Z)) (thr : option Z) (ivsB : list (Z * Z)) (ngets : Z) (after : snap)
-| EBlk (host : string) (t0 t1 : Z) (after : snap).      (* a Wait started at t0, still blocked at t1 *)
+| EBlk (host : string) (t0 t1 : Z) (after : snap)       (* a Wait started at t0, still blocked at t1 *)
+| ECancel (after : snap).    (* the context given to NewBucketManager was cancelled (during the event before this one) *)
     (* [ngets] calls for one host started together: releases [ivsA] observed among the calls that
        were concurrent with an optional throttling AdjustOnFailure (entered at or after [thr]),
        releases [ivsB] among calls started after it had returned; calls still blocked when the
@@ -229,18 +230,19 @@ Definition ES (h : string) (t0 t1 : int) (a : wsnap) := ESucc h (iz t0) (iz t1) 
 Definition EB (h : string) (v : wivs) (a : wsnap) := EBurst h (ivs_of v) (snap_of a).
 Definition EM (h : string) (v : wivs) (x : int) (a : wsnap) := EMix h (ivs_of v) (iz x) (snap_of a).
 Definition EK (h : string) (t0 t1 : int) (a : wsnap) := EBlk h (iz t0) (iz t1) (snap_of a).
+Definition EX (a : wsnap) := ECancel (snap_of a).
 Definition EC (h : string) (va : wivs) (thr : zi) (vb : wivs) (n : int) (a : wsnap) :=
   EConc h (ivs_of va) (match thr with ZT0 => None | z => Some (zi_Z z) end) (ivs_of vb) (iz n) (snap_of a).
 Definition MC (mx : zi) (c r : fl) (evs : list mev) : mcase := MC0 (zi_Z mx) c r evs.
 
 Definition ev_after (e : mev) : snap :=
-  match e with EWait _ _ _ a => a | EFail _ _ _ _ a => a | ESucc _ _ _ a => a | EBurst _ _ a => a | EMix _ _ _ a => a | EConc _ _ _ _ _ a => a | EBlk _ _ _ a => a end.
+  match e with EWait _ _ _ a => a | EFail _ _ _ _ a => a | ESucc _ _ _ a => a | EBurst _ _ a => a | EMix _ _ _ a => a | EConc _ _ _ _ _ a => a | EBlk _ _ _ a => a | ECancel a => a end.
 Definition ev_host (e : mev) : string :=
-  match e with EWait h _ _ _ => h | EFail h _ _ _ _ => h | ESucc h _ _ _ => h | EBurst h _ _ => h | EMix h _ _ _ => h | EConc h _ _ _ _ _ => h | EBlk h _ _ _ => h end.
+  match e with EWait h _ _ _ => h | EFail h _ _ _ _ => h | ESucc h _ _ _ => h | EBurst h _ _ => h | EMix h _ _ _ => h | EConc h _ _ _ _ _ => h | EBlk h _ _ _ => h | ECancel _ => EmptyString end.
 (* number of getBucket calls the event makes *)
 Definition ev_gets (e : mev) : nat :=
   match e with EBurst _ ivs _ => length ivs | EMix _ ivs x _ => (length ivs + Z.to_nat x)%nat
-  | EConc _ _ _ _ n _ => Z.to_nat n | _ => 1%nat end.
+  | EConc _ _ _ _ n _ => Z.to_nat n | ECancel _ => O | _ => 1%nat end.
 
 Definition has_key (h : string) (s : snap) : bool := existsb (fun '(k, _) => String.eqb k h) s.
 
@@ -269,7 +271,11 @@ Fixpoint mdiff_evs (m : manager) (l : list mev) : bool :=
   | [] => false
   | e :: r =>
       let v := victim_of (tab_snap m) (ev_after e) in
-      match rep_get (ev_gets e) (ev_host e) v m with
+      match (match e with
+             | ECancel _ =>      (* Rate/Cancel.v: a cancellation leaves the table and its buckets alone *)
+                 match wstep (WS m false []) WCancel with Some (s', _) => Some (ws_mgr s') | None => None end
+             | _ => rep_get (ev_gets e) (ev_host e) v m
+             end) with
       | None => true
       | Some m' => negb (snap_eq (tab_snap m') (ev_after e)) || mdiff_evs m' r
       end
@@ -301,6 +307,7 @@ Fixpoint host_evs (h : string) (present : bool) (l : list mev) : list hev :=
           | EBurst _ ivs _ => map (fun '(t0, t1) => HRel t0 t1) ivs
           | EMix _ ivs _ _ => map (fun '(t0, t1) => HRel t0 t1) ivs
           | EBlk _ _ _ _ => []
+          | ECancel _ => []
           | EConc _ a thr b _ _ =>
               map (fun '(t0, t1) => HRel t0 t1) a ++
               (match thr with Some f => [HThr f] | None => [] end) ++
@@ -315,7 +322,7 @@ Fixpoint host_evs (h : string) (present : bool) (l : list mev) : list hev :=
   end.
 
 Definition hosts_of (c : mcase) : list string :=
-  nodup string_dec (map ev_host (k_evs c)).
+  nodup string_dec (map ev_host (filter (fun e => match e with ECancel _ => false | _ => true end) (k_evs c))).
 
 (* releases of one lifetime / of the whole history, as intervals *)
 Fixpoint split_lives (l : list hev) (cur : list hev) : list (list hev) :=
@@ -434,33 +441,40 @@ Definition umons (l : list ucase) := mon_idx [umon_bounded] l.
    as they ARRIVE at the origin (ns since the start of the case, item number, status answered), and
    the host's bucket (failure count, rate) read when item 1 has left the archiver.
    archive() reports a response to the limiter as failure iff status >= 500 or in {408, 425, 429}
-   (or a discarded challenge page - not produced here), anything else as success; it asks Wait once
+   or a challenge page (403 + `cf-mitigated: challenge`, constructor AEC; whatever the operator's
+   --warc-discard-status list), anything else - a plain 403 too - as success; it asks Wait once
    per item, its retries do not pass through Wait. *)
-Inductive aev := AE (t item : int) (status : zi).
+(* AEC: the answer carried the header `cf-mitigated: challenge` (with status 403: a Cloudflare challenge page) *)
+Inductive aev := AE (t item : int) (status : zi) | AEC (t item : int) (status : zi).
 Record acase := AC0 {
   a_retry : Z; a_cap : fl; a_rate : fl;
-  a_evs : list (Z * Z * Z);
+  a_evs : list (Z * Z * Z * bool);   (* arrival time, item, status answered, challenge header *)
   a_state : option (Z * fl);         (* failureCount, refillRate after item 1 *)
   a_built : option (fl * fl)         (* capacity, idealRate of the bucket the archiver's manager made *)
 }.
 (* [a_cap], [a_rate] are the OPERATOR's values (config RateLimitCapacity / RateLimitRefillRate) *)
 Inductive astate := ANone | ASt (fails : zi) (rate : fl) | ASt2 (fails : zi) (rate cap ideal : fl).
 Definition AC (retry : zi) (c r : fl) (evs : list aev) (st : astate) : acase :=
-  AC0 (zi_Z retry) c r (map (fun '(AE t i s) => (iz t, iz i, zi_Z s)) evs)
+  AC0 (zi_Z retry) c r (map (fun e => match e with AE t i s => (iz t, iz i, zi_Z s, false) | AEC t i s => (iz t, iz i, zi_Z s, true) end) evs)
       (match st with ANone => None | ASt f x => Some (zi_Z f, x) | ASt2 f x _ _ => Some (zi_Z f, x) end)
       (match st with ASt2 _ _ cp idl => Some (cp, idl) | _ => None end).
 
 Definition arch_bad (s : Z) : bool := (500 <=? s) || (s =? 408) || (s =? 425) || (s =? 429).
+(* what archive() must report to the limiter as a failure: a bad status, or a challenge page
+   (cloudflare.ChallengePageHook: status 403 with `cf-mitigated: challenge`) - whatever the operator's
+   --warc-discard-status list says about that status (the list decides what is kept out of the WARC,
+   not what the limiter hears) *)
+Definition arch_fail (s : Z) (ch : bool) : bool := arch_bad s || (ch && (s =? 403)).
 
-Definition item_evs (i : Z) (c : acase) : list (Z * Z) :=
-  flat_map (fun '(t, j, s) => if j =? i then [(t, s)] else []) (a_evs c).
+Definition item_evs (i : Z) (c : acase) : list (Z * Z * bool) :=
+  flat_map (fun '(t, j, s, ch) => if j =? i then [(t, s, ch)] else []) (a_evs c).
 
 (* the retry loop: attempts until the first response that is not a failure, at most retry+1 *)
-Fixpoint attempts_ok (left : nat) (l : list (Z * Z)) : bool :=
+Fixpoint attempts_ok (left : nat) (l : list (Z * Z * bool)) : bool :=
   match l with
   | [] => false
-  | (_, s) :: r =>
-      if arch_bad s
+  | (_, s, ch) :: r =>
+      if arch_fail s ch
       then match left with O => match r with [] => true | _ => false end | S n => attempts_ok n r end
       else match r with [] => true | _ => false end
   end.
@@ -468,22 +482,23 @@ Fixpoint attempts_ok (left : nat) (l : list (Z * Z)) : bool :=
 (* what the bucket must look like after item 1, by the bucket model *)
 Definition adiff_case (c : acase) : bool :=
   match a_state c, item_evs 1 c with
-  | Some (f, x), (t0, _) :: _ =>
-      let h := Try t0 :: map (fun '(t, s) => if arch_bad s then Fail t s else Succ t) (item_evs 1 c) in
+  | Some (f, x), (t0, _, _) :: _ =>
+      let h := Try t0 :: map (fun '(t, s, ch) => if arch_fail s ch then Fail t s else Succ t) (item_evs 1 c) in
       let b := final (new_bucket (q_of (a_cap c)) (q_of (a_rate c)) t0) h in
       negb (fails b =? f) || negb (close (rate b) (q_of x)) ||
       negb (attempts_ok (Z.to_nat (a_retry c)) (item_evs 1 c))
   | _, _ => false
   end.
 
-(* 0: penalty_honoured as seen at the origin: after an answered 429/408/425 at time t, no request of
-   ANOTHER item (each item passes through Wait once, before its first request) arrives before t + 5 s *)
-Fixpoint amon_from (l : list (Z * Z * Z)) : bool :=
+(* 0: penalty_honoured as seen at the origin: after an answered 429/408/425 or a 403 challenge page at
+   time t, no request of ANOTHER item (each item passes through Wait once, before its first request)
+   arrives before t + 5 s - whether or not the crawl was stopped in between *)
+Fixpoint amon_from (l : list (Z * Z * Z * bool)) : bool :=
   match l with
   | [] => true
-  | (t, i, s) :: r =>
-      (if is_throttle s && arch_bad s
-       then forallb (fun '(t', j, _) => (j =? i) || (t + SEC5 <=? t')) r
+  | (t, i, s, ch) :: r =>
+      (if is_throttle s && arch_fail s ch
+       then forallb (fun '(t', j, _, _) => (j =? i) || (t + SEC5 <=? t')) r
        else true) && amon_from r
   end.
 Definition amon_penalty (c : acase) : bool := amon_from (a_evs c).
@@ -494,17 +509,18 @@ Definition amon_penalty (c : acase) : bool := amon_from (a_evs c).
    success.  Then the failure count read after item 1 is nf (nf - 1 or nf if a success followed: a
    success takes one failure back unless a penalty is in force), and if a 5xx was answered the rate
    is strictly below the configured rate and never above it. *)
-Definition fail_class (s : Z) : bool := (500 <=? s) || (s =? 429) || (s =? 408) || (s =? 425).
+Definition fail_class (a : Z * bool) : bool :=
+  let '(s, ch) := a in (500 <=? s) || (s =? 429) || (s =? 408) || (s =? 425) || (ch && (s =? 403)).
 Definition amon_reported (c : acase) : bool :=
   match a_state c with
   | None => true
   | Some (f, x) =>
-      let ans := map snd (item_evs 1 c) in
+      let ans := map (fun '(_, s, ch) => (s, ch)) (item_evs 1 c) in
       let nf := Z.of_nat (length (filter fail_class ans)) in
       let ns := Z.of_nat (length (filter (fun s => negb (fail_class s)) ans)) in
       Qle_bool (q_of x) (q_of (a_rate c)) &&
       (if ns =? 0 then f =? nf else (nf - 1 <=? f) && (f <=? nf)) &&
-      (if existsb (fun s => 500 <=? s) ans then negb (Qle_bool (q_of (a_rate c)) (q_of x)) else true)
+      (if existsb (fun '(s, _) => 500 <=? s) ans then negb (Qle_bool (q_of (a_rate c)) (q_of x)) else true)
   end.
 
 (* 2: the limiter the archiver builds has the operator's capacity and rate *)
@@ -517,10 +533,10 @@ Definition amon_built (c : acase) : bool :=
 (* 3: window bound with the CONFIGURED capacity and rate, at the origin.  Every item passes through
    Wait once before its first request, and the host's bucket did not exist before the case started
    (time 0): when the n-th item's first request arrives at time t, n <= capacity + t * rate. *)
-Fixpoint first_arrivals (seen : list Z) (l : list (Z * Z * Z)) : list Z :=
+Fixpoint first_arrivals (seen : list Z) (l : list (Z * Z * Z * bool)) : list Z :=
   match l with
   | [] => []
-  | (t, i, _) :: r =>
+  | (t, i, _, _) :: r =>
       if existsb (Z.eqb i) seen then first_arrivals seen r else t :: first_arrivals (i :: seen) r
   end.
 Fixpoint burst_from (capq rq : Q) (n : Z) (l : list Z) : bool :=
